@@ -7,6 +7,7 @@ package main
 import (
 	"fmt"
 	"go/token"
+	"os"
 	"sort"
 	"strings"
 
@@ -446,6 +447,9 @@ func ruleC17R4(c *Ctx) {
 			}
 			cc := s.Common()
 			// a private helper that closes the connection it is handed (releaseConnection)
+			if os.Getenv("SLOGCHECK_R4DBG") != "" && f != nil {
+				fmt.Fprintf(os.Stderr, "R4DBG site %s callee %s helper=%v args=%d params=%d\n", c.P.pos(s.Pos()), f, c.helpersOf(fn)[f], len(cc.Args), len(f.Params))
+			}
 			if f != nil && c.helpersOf(fn)[f] {
 				for i, a := range cc.Args {
 					if i >= len(f.Params) || !mentions(a, func(v ssa.Value) bool { return v == connP }) {
@@ -496,7 +500,7 @@ func ruleC17R4(c *Ctx) {
 		okAll := true
 		why := ""
 		for _, s := range sitesWhere(fn, isSig) {
-			if _, d := s.(*ssa.Defer); d {
+			if _, d := s.(*ssa.Defer); d || isClose(s) {
 				continue
 			}
 			// explicit Signal: an explicit Close must precede it on every path
@@ -518,9 +522,12 @@ func ruleC17R4(c *Ctx) {
 				if isClose(d) {
 					ci = i
 				}
-				if isSig(d) {
-					si = i
+				if isSig(d) && !isClose(d) && si < 0 {
+					si = i // the first release in execution order (the sink's own Close mentions the connection too, through NewSink's argument: it is not a release)
 				}
+			}
+			if os.Getenv("SLOGCHECK_R4DBG") != "" {
+				fmt.Fprintf(os.Stderr, "R4DBG rundefers order=%d ci=%d si=%d\n", len(order), ci, si)
 			}
 			if si >= 0 && (ci < 0 || ci > si) {
 				// deferred Signal runs before the deferred Close, unless an explicit Close precedes every exit
